@@ -11,18 +11,22 @@ except Exception:       # generator module missing: the rectilinear stream falls
 META = dict(
     text=("Coq model of ring finalisation (CleanCollinear, FixSelfIntersects incl. the micro self-intersection branch, "
           "DoSplitOp, BuildPath64, BuildPaths64) with the double-precision leaves as Section variables; theorems over ALL "
-          "rings: every emitted path has >= 3 vertices and no cyclically consecutive duplicates provided SegmentsIntersect "
-          "is false for segments sharing an end point (refuted without that hypothesis by a witness ring), CleanCollinear "
-          "terminates within a quadratic fuel bound, leaf bounding-box lemmas; soundness of the extracted structural checker. "
+          "rings: every emitted closed path has >= 3 vertices and no cyclically consecutive duplicates provided SegmentsIntersect "
+          "is false for segments sharing an end point (C03_structural, C03_structural_all_rings; refuted without that hypothesis "
+          "by a witness ring, C03_structural_without_leaf_hypothesis_refuted), CleanCollinear's loop terminates within a quadratic "
+          "fuel bound (C03_clean_collinear_terminates_partial); soundness of the extracted structural checker. "
           "The model (with bit-exact binary64 leaves) is tied to the code by exact comparison of BuildPaths64 with the "
           "extracted model on the raw OutRec rings of real runs and on random synthetic rings.  Every clause of the property "
           "is validated by extracted exact checkers on a degenerate/huge-coordinate stream (structural, bbox) and on "
-          "general-position and rectilinear inputs (geometric clause, Union idempotence) under all clip types, fill rules, "
-          "PreserveCollinear and ReverseSolution."),
+          "general-position and rectilinear inputs (geometric clause, Union idempotence under EvenOdd, NonZero and the "
+          "orientation-matching Positive/Negative rule) under all clip types, fill rules, PreserveCollinear and ReverseSolution."),
     note=("Trusted: Coq kernel, extraction, OCaml driver, C++ harness with private access, generators.  Proved for the ring "
-          "finalisation model only (structural clause, all rings, all float behaviours satisfying the stated leaf hypothesis); "
+          "finalisation model only (structural clause, all rings, all float behaviours satisfying the stated leaf hypothesis; "
+          "termination of FixSelfIntersects is not proved); "
           "the bounding-box and geometric clauses are validated by exact checkers on generated inputs, not proved; the leaf "
-          "hypothesis on the binary64 SegmentsIntersect is validated on generated shared-end-point configurations."),
+          "hypothesis on the binary64 SegmentsIntersect is validated on generated shared-end-point configurations.  Known "
+          "findings (geometric clause): vertices off by rounding beyond 2^53, Union of a solution relinking paths at touching "
+          "vertices, adjacent regions along coincident edges not merged."),
     technique='Coq proof (ring invariant, all rings and float behaviours) + exact model/implementation correspondence + extracted exact checkers',
     category='proof',
 )
@@ -161,39 +165,113 @@ def synthetic_ring(rng):
     return p
 
 
-def edges_overlap(sol):
-    """two solution edges (same or different paths) are collinear and share a segment of positive length"""
-    es = [e for p in sol for e in polys.cyc_edges(p)]
-    for i in range(len(es)):
-        a, b = es[i]
-        for j in range(i + 1, len(es)):
-            c, d = es[j]
-            if polys.cross(a, b, c) != 0 or polys.cross(a, b, d) != 0:
+def split_edges(paths, verts):
+    """multiset (dict) of the directed edges of `paths` after cutting every edge at every point of `verts` that lies
+    strictly inside it (exact integer arithmetic)"""
+    cnt = {}
+    for p in paths:
+        for a, b in polys.cyc_edges(p):
+            if a == b:
                 continue
-            ax = 0 if a[0] != b[0] else 1
-            lo1, hi1 = sorted((a[ax], b[ax])); lo2, hi2 = sorted((c[ax], d[ax]))
-            if max(lo1, lo2) < min(hi1, hi2):
-                return True
-    return False
+            lox, hix = min(a[0], b[0]), max(a[0], b[0]); loy, hiy = min(a[1], b[1]), max(a[1], b[1])
+            inner = [w for w in verts if lox <= w[0] <= hix and loy <= w[1] <= hiy and w != a and w != b and polys.cross(a, b, w) == 0]
+            inner.sort(key=lambda w: (w[0] - a[0]) * (b[0] - a[0]) + (w[1] - a[1]) * (b[1] - a[1]))
+            chain = [a] + inner + [b]
+            for e in zip(chain, chain[1:]):
+                cnt[e] = cnt.get(e, 0) + 1
+    return cnt
 
 
-def union_key(sol, rs):
-    """classifier of a Union-idempotence failure (all of them violate the clause; the suffix names the family)"""
-    if edges_overlap(sol):
-        return 'geom.union-not-idempotent.overlapping-edges'
-    allv = [v for p in sol for v in p]
-    if len(set(allv)) < len(allv):
-        return 'geom.union-not-idempotent.reversed-touching' if rs else 'geom.union-not-idempotent.touching'
-    return 'geom.union-not-idempotent'
+def net_boundary(cnt):
+    """cancel pieces traversed in both directions: what is left determines the winding number field"""
+    out = {}
+    for (a, b), n in cnt.items():
+        k = n - cnt.get((b, a), 0)
+        if k > 0:
+            out[(a, b)] = k
+    return out
 
 
-def vertex_far_key(c):
-    return 'geom.vertex-far' if maxabs_case(c) <= 2 ** 53 else 'geom.vertex-far.beyond-2^53'
+UNION_TOUCHING = 'geom.union-not-idempotent.touching'
+UNION_OVERLAP = 'geom.union-not-idempotent.overlapping-edges'
+UNION_HUGE = 'geom.union-not-idempotent.beyond-2^53'
+UNION_OTHER = 'geom.union-not-idempotent'
+
+
+def union_key(c, sol, u):
+    """Classifier of a Union-idempotence failure: `sol` is the solution, `u` what Union(sol) returned (a different path
+    set).  Every outcome is a violation of the clause; the key names the failure mode so that only the modes that are
+    listed as known findings can be matched by them:
+      .touching           both path sets consist of exactly the same directed edge pieces; they are only linked into
+                          paths differently at a point where more than one boundary strand passes (regions touching
+                          in a vertex are split/merged by the second run)
+      .overlapping-edges  the solution contains edge pieces traversed in both directions (two filled regions adjacent
+                          along a common edge piece were not merged); after cancelling them the boundary equals the
+                          boundary of Union(sol)
+      .beyond-2^53        general-position input with |coordinate| > 2^53 (int64 -> double is lossy): the boundaries
+                          differ, but every vertex of either path set is within max|coordinate| / 2^50 (4 ulp) of a
+                          vertex of the other one
+      (no suffix)         anything else: the second run changed the covered region"""
+    if u is None:
+        return 'crash.reunion'
+    verts = set(v for p in sol + u for v in p)
+    S, U = split_edges(sol, verts), split_edges(u, verts)
+    if net_boundary(S) == net_boundary(U):
+        if any((b, a) in S for (a, b) in S):
+            return UNION_OVERLAP
+        outdeg = {}
+        for (a, b), n in S.items():
+            outdeg[a] = outdeg.get(a, 0) + n
+        if S == U and any(n > 1 for n in outdeg.values()):
+            return UNION_TOUCHING
+        return UNION_OTHER
+    m = maxabs_case(c)
+    if m > 2 ** 53 and c.get('geom') == 'genpos':
+        tol = m >> 50
+        vs, vu = set(v for p in sol for v in p), set(v for p in u for v in p)
+        def close(v, ws):
+            return any(abs(v[0] - w[0]) <= tol and abs(v[1] - w[1]) <= tol for w in ws)
+        if all(close(v, vu) for v in vs) and all(close(w, vs) for w in vu):
+            return UNION_HUGE
+    return UNION_OTHER
+
+
+VERTEX_FAR = 'geom.vertex-far'
+VERTEX_FAR_HUGE = 'geom.vertex-far.beyond-2^53'
+
+
+def vertex_far_key(env, c, path):
+    """Classifier of a 'vertex farther than 2 units from every input edge' failure on solution path `path`.
+    |coordinate| <= 2^53: plain key.  Beyond 2^53 (where converting a coordinate to double is lossy and one ulp of a
+    coordinate is >= 2 units) the failure is the known precision finding as long as every vertex of the path is within
+    max|coordinate| / 2^50 (4 ulp of the largest coordinate) of an input edge -- decided exactly by the extracted
+    distance predicate; a vertex farther off than rounding can explain gets its own key."""
+    m = maxabs_case(c)
+    if m <= 2 ** 53:
+        return VERTEX_FAR
+    o = vf.run_lines(env.region, ['NEAR %d %d 1 %s %d %s' % (m, 2 ** 50, vf.fmt_paths(c['S'] + c['C']), len(path), vf.fmt_path(path))],
+                     timeout=120).stdout.split()
+    if len(o) == len(path) and all(x == '1' for x in o):
+        return VERTEX_FAR_HUGE
+    return VERTEX_FAR_HUGE + '.gross'
 
 
 # ----------------------------------------------------------------------------- protocol helpers
 def maxabs_case(c):
     return polys.maxabs([c['S'], c.get('O', []), c['C']])
+
+
+def reunion_fills(rs):
+    """Fill rules under which Union of a well-formed solution must reproduce it: EvenOdd and NonZero always (outer paths
+    and holes alternate in orientation, so |winding number| is 1 inside and 0 in holes whatever the sign), and the
+    sign-specific rule that matches the orientation of the outer paths: Positive for a normal solution, Negative for a
+    ReverseSolution one (the opposite rule would legitimately return nothing).  The second run uses the same
+    PreserveCollinear and ReverseSolution settings as the first, so that collinear vertices and orientation are kept."""
+    return (1, 0, 3 if rs else 2)
+
+
+def reunion_line(fr2, pc, rs, sol):
+    return 'BOOL 2 %d %d %d 0 %s 0 0' % (fr2, pc, rs, vf.fmt_paths(sol))
 
 
 def rings_line(c, ct, fr, pc, rs):
@@ -304,17 +382,18 @@ def eval_one(env, c, ct, fr, pc, rs, build='plain', geom=None, want_tie=True):
     if codes is None:
         raise vf.Infra('oracle ALL failed: ' + o[:300])
     for code, idx in codes:
-        key = vertex_far_key(c) if code == 6 else KEYS[code]
+        key = vertex_far_key(env, c, r['closed'][idx]) if code == 6 else KEYS[code]
         keys.add(key)
         det.setdefault('paths', {})[key] = idx
     if geom and r['closed']:
-        for fr2 in (1, 0):
+        for fr2 in reunion_fills(rs):
             exe = env.exes.get('bool.' + build) or env.exes['bool.plain']
-            q = vf.run_lines(exe, ['BOOL 2 %d %d %d 0 %s 0 0' % (fr2, pc, rs, vf.fmt_paths(r['closed']))], timeout=60)
+            q = vf.run_lines(exe, [reunion_line(fr2, pc, rs, r['closed'])], timeout=60)
             u = parse_bool(q.stdout.strip()) if q.returncode == 0 else None
             if u is None or vf.canon_paths(u['closed']) != vf.canon_paths(r['closed']):
-                keys.add(union_key(r['closed'], rs))
-                det['union'] = dict(fill=FR[fr2], result=u['closed'] if u else None)
+                k = union_key(c, r['closed'], u['closed'] if u else None)
+                keys.add(k)
+                det.setdefault('union', {})[k] = dict(fill=FR[fr2], result=u['closed'] if u else None)
     return keys, det
 
 
@@ -404,6 +483,7 @@ def phase_synthetic(ctx, env, n):
         return
     b = need(*vf.par_lines(env.oracle, ol, timeout=600), 'oracle BUILD')
     micro = splits = 0
+    first_bad = None
     for (pc, rs, rings), x, y in zip(meta, a, b):
         st, mc, mo, m, s = parse_build(y)
         ctx.count('synthetic_rings')
@@ -413,13 +493,15 @@ def phase_synthetic(ctx, env, n):
         if len(t) > 1 and t[0] == 'ok' and t[1] == 'P':
             gc, pos = vf.parse_paths(t, 2); go, pos = vf.parse_paths(t, pos); got = (gc, go)
         if st != 'OK' or got is None or got != (mc, mo):
-            ctx.violation('tie.ringfinal', 'BuildPaths64 and the extracted model disagree on a synthetic ring: C++ %s / model %s' % (x[:160], y[:160]),
-                          replay=dict(kind='syn', pc=pc, rs=rs, rings=rings, cpp=x, model=y), nofail=True)
+            ctx.count('synthetic_tie_mismatches')
+            if first_bad is None:       # one report; vf keeps at most 50 violations and later phases must still be heard
+                first_bad = (pc, rs, rings, x, y)
         if got:
             for p in got[0]:
                 ctx.hist('synthetic_out_len', min(len(p), 12))
     ctx.cov['synthetic_micro_branch_taken'] = micro
     ctx.cov['synthetic_DoSplitOp_taken'] = splits
+    return first_bad
 
 
 def leaf_hypothesis(ctx, env, n):
@@ -436,19 +518,22 @@ def leaf_hypothesis(ctx, env, n):
         lines.append('LEAF ' + ' '.join('%d %d' % v for v in quad) + ' 0 0')
     x = need(*vf.par_lines(env.exes['rings'], lines), 'cx_rings LEAF')
     y = need(*vf.par_lines(env.oracle, lines), 'oracle LEAF')
+    seen = set()
     for l, p, q in zip(lines, x, y):
         ctx.count('leaf_shared_endpoint_cases')
-        if p != q:
+        if p != q and 'tie' not in seen:
+            seen.add('tie')
             ctx.violation('tie.leaf', 'binary64 leaf model differs from the C++: %s / %s' % (p, q), replay=dict(kind='leaf', line=l), nofail=True)
         t = l.split()[1:9]
         degenerate = t[0:2] == t[2:4] or t[4:6] == t[6:8]
-        if p.split()[1] != '0' and not degenerate:
+        if p.split()[1] != '0' and not degenerate and 'si' not in seen:
+            seen.add('si')
             ctx.violation('leaf.segments-intersect-shared-endpoint',
                           'SegmentsIntersect reports an intersection for segments sharing an end point (hypothesis of C03_structural): ' + l,
                           replay=dict(kind='leaf', line=l))
 
 
-def phase_stream(ctx, env, cases, label, combos_per_case=None, builds=('plain',)):
+def phase_stream(ctx, env, cases, label, combos_per_case=None, builds=('plain',), all_flags=False):
     """cases: list of dicts(S,O,C,kind,regime[,geom]).  Runs every case under clip type x fill rule (all 16, or a random
     subset), random pc/rs; tie on the plain build; structural/bbox/(geometric) clauses through the extracted checker."""
     rng = ctx.rng.fork(13 + len(label))
@@ -459,8 +544,9 @@ def phase_stream(ctx, env, cases, label, combos_per_case=None, builds=('plain',)
             rng.shuffle(combos); combos = combos[:combos_per_case]
         for ct, fr in combos:
             pc, rs = rng.below(2), rng.below(2)
-            for b in builds:
-                jobs.append((ci, ct, fr, pc, rs, b))
+            for pc, rs in ([(0, 0), (0, 1), (1, 0), (1, 1)] if all_flags else [(pc, rs)]):
+                for b in builds:
+                    jobs.append((ci, ct, fr, pc, rs, b))
     outs = {}
     for b in builds:
         idxs = [k for k, j in enumerate(jobs) if j[5] == b]
@@ -514,25 +600,27 @@ def phase_stream(ctx, env, cases, label, combos_per_case=None, builds=('plain',)
             nontrivial.add((ci, ct, fr))
             ctx.hist('solution_paths', min(len(outs[k]['closed']), 8))
         for code, idx in codes:
-            key = vertex_far_key(cases[ci]) if code == 6 else KEYS[code]
+            key = vertex_far_key(env, cases[ci], outs[k]['closed'][idx]) if code == 6 else KEYS[code]
             ctx.hist('failing_evaluations_by_key', key)
             found.setdefault(key, (k, '%s: solution path %d = %s' % (key, idx, outs[k]['closed'][idx][:12])))
-    # Union idempotence on the geometric cases
-    ul, uidx = [], []
-    for k, j in enumerate(jobs):
-        ci, ct, fr, pc, rs, b = j
-        if cases[ci].get('geom') and outs.get(k) and outs[k]['closed']:
-            for fr2 in (1, 0):
-                ul.append('BOOL 2 %d %d %d 0 %s 0 0' % (fr2, pc, rs, vf.fmt_paths(outs[k]['closed']))); uidx.append((k, fr2))
-    if ul:
-        uo = need(*vf.par_lines(env.exes['bool.plain'], ul, timeout=600), 'cx_bool union')
+    # Union idempotence on the geometric cases (second run with the same build and the same pc/rs settings)
+    for b in builds:
+        ul, uidx = [], []
+        for k, j in enumerate(jobs):
+            ci, ct, fr, pc, rs, jb = j
+            if jb == b and cases[ci].get('geom') and outs.get(k) and outs[k]['closed']:
+                for fr2 in reunion_fills(rs):
+                    ul.append(reunion_line(fr2, pc, rs, outs[k]['closed'])); uidx.append((k, fr2))
+        if not ul:
+            continue
+        uo = need(*vf.par_lines(env.exes['bool.' + b], ul, timeout=600), 'cx_bool union')
         for (k, fr2), line in zip(uidx, uo):
             u = parse_bool(line)
             ctx.count('union_idempotence_checks')
             if u is None or vf.canon_paths(u['closed']) != vf.canon_paths(outs[k]['closed']):
-                ctx.hist('failing_evaluations_by_key', union_key(outs[k]['closed'], jobs[k][4]))
-                found.setdefault(union_key(outs[k]['closed'], jobs[k][4]),
-                                 (k, 'Union/%s of the solution returns a different path set (%d paths -> %s)' % (FR[fr2], len(outs[k]['closed']), len(u['closed']) if u else 'crash')))
+                key = union_key(cases[jobs[k][0]], outs[k]['closed'], u['closed'] if u else None)
+                ctx.hist('failing_evaluations_by_key', key)
+                found.setdefault(key, (k, 'Union/%s of the solution returns a different path set (%d paths -> %s)' % (FR[fr2], len(outs[k]['closed']), len(u['closed']) if u else 'crash')))
     for c in cases:
         ctx.hist('regime', c['regime']); ctx.hist('kind', c['kind'].split('-d')[0][:24])
         ctx.hist('input_vertices', min(60, sum(len(p) for p in c['S'] + c['C'] + c.get('O', []))) // 5 * 5)
@@ -586,6 +674,21 @@ def setup(ctx):
     return env
 
 
+def small_case(rng):
+    """degenerate case with coordinates in a box of at most +-10 around the origin: rounding makes raw rings
+    self-intersect there, so DoSplitOp, the micro branch and the tiny-triangle tests are exercised by real runs"""
+    box = rng.choice([1, 2, 3, 3, 5, 5, 10])
+    S = nasty_paths(rng, box, (0, 0))
+    C = nasty_paths(rng, box, (0, 0)) if not rng.chance(1, 5) else []
+    if rng.chance(1, 6) and S:
+        C = C + [list(rng.choice(S))]
+    return dict(S=S, O=[], C=C, kind='nasty-small', regime='box%d' % box.bit_length())
+
+
+def has_failing_input(ctx):
+    return any(not v['nofail'] for v in ctx.violations)
+
+
 def run(ctx):
     pr = vf.coq_props(ctx, 'C03')
     env = setup(ctx)
@@ -593,11 +696,12 @@ def run(ctx):
     mul = (1 if ctx.quick else 12) * (3 if broken else 1)
     corpus = load_corpus()
     if corpus:
-        phase_stream(ctx, env, [c for c in corpus if not c.get('geom')], 'corpus', builds=('plain', 'hi'))
-        phase_stream(ctx, env, [c for c in corpus if c.get('geom')], 'corpus-geom', builds=('plain', 'hi'))
+        phase_stream(ctx, env, [c for c in corpus if not c.get('geom')], 'corpus', builds=('plain', 'hi'), all_flags=True)
+        phase_stream(ctx, env, [c for c in corpus if c.get('geom')], 'corpus-geom', builds=('plain', 'hi'), all_flags=True)
         ctx.cov['corpus_cases'] = len(corpus)
+    syn_bad = None
     if 'rings' in env.exes:
-        phase_synthetic(ctx, env, 30000 * mul)
+        syn_bad = phase_synthetic(ctx, env, 30000 * mul)
         leaf_hypothesis(ctx, env, 20000 * mul)
     rng = ctx.rng.fork(1)
     nasty = [nasty_case(rng) for _ in range(2500 * mul)]
@@ -608,20 +712,40 @@ def run(ctx):
     phase_stream(ctx, env, rect, 'rectilinear', builds=('plain', 'hi'))
     for c in (nasty[:1] + gp[:1] + rect[:2]):
         ctx.sample(dict(S=c['S'], C=c['C'], O=c.get('O', []), kind=c['kind'], regime=c['regime']))
-    ctx.cov['rule'] = ('(1) synthetic OutRec rings (random points in boxes 2..2^60, injected duplicates/collinear points): BuildPaths64 vs '
+    # search on break: the model and the code disagree (or the proof / harness is broken) and no input violating the
+    # property is known yet -> many more real runs where ring finalisation has work to do
+    tie_broken = syn_bad is not None or any(v['key'].startswith('tie') for v in ctx.violations)
+    if (tie_broken or broken) and not has_failing_input(ctx):
+        srng = ctx.rng.fork(2)
+        for rnd in range(3 if ctx.quick else 12):
+            phase_stream(ctx, env, [small_case(srng) for _ in range(4000)], 'search%d' % rnd, builds=('plain',))
+            ctx.count('search_rounds')
+            if has_failing_input(ctx):
+                break
+    if syn_bad is not None:
+        pc, rs, rings, x, y = syn_bad
+        ctx.violation('tie.ringfinal', 'BuildPaths64 and the extracted model disagree on %d synthetic rings, e.g. C++ %s / model %s'
+                      % (ctx.cov.get('synthetic_tie_mismatches', 0), x[:160], y[:160]),
+                      replay=dict(kind='syn', pc=pc, rs=rs, rings=rings, cpp=x, model=y), nofail=True)
+    ctx.cov['rule'] = ('(0) corpus/C03/*.case regression inputs: all 16 clip type x fill rule combinations x all 4 PreserveCollinear/'
+                       'ReverseSolution settings; (1) synthetic OutRec rings (random points in boxes 2..2^60, injected duplicates/collinear points): BuildPaths64 vs '
                        'extracted model, exact; (2) degenerate stream (empty/1-2 point paths, duplicates, spikes, coincident and shifted copies, '
                        'axis-parallel walks, coordinates up to 2^62-1): 4 random clip type x fill rule combinations per case with random '
                        'PreserveCollinear/ReverseSolution, default and HI_PRECISION builds: raw rings vs model (|coord| <= 2^61), structural clause '
                        'always, bbox clause for |coord| <= 2^52; (3) general position (extracted Coq predicate) in 7 coordinate regimes and '
                        '(4) rectilinear lattice inputs: all 16 combinations, additionally the geometric clause by the extracted exact checker and '
-                       'Union(NonZero, EvenOdd) idempotence; non-trivial = distinct (case, clip type, fill rule) with a non-empty closed solution')
+                       'Union(EvenOdd, NonZero, Positive resp. Negative for ReverseSolution) idempotence with the same build and settings; '
+                       '(5) only when model and code disagree: up to 3 (thorough 12) rounds of 4000 small-box degenerate cases x 16 combinations; '
+                       'non-trivial = distinct (case, clip type, fill rule) with a non-empty closed solution')
     ctx.assumptions += ['C03_structural assumes SegmentsIntersect(a,b,c,d) = false whenever the segments share an end point; proved on paper for '
                         'binary64 (the two products cancel exactly), validated on generated configurations (leaf_shared_endpoint_cases)',
                         'int64 differences/sums of coordinates do not wrap (|coord| < 2^62) in the model of the leaves',
+                        'termination of FixSelfIntersects (micro self-intersection branch grows the ring) is not proved; a FUEL answer of the model would be reported as a tie break',
                         'bbox and geometric clauses: validated on generated inputs by exact checkers, not proved',
-                        'general position as decided by base/GenPos.v; rectilinear = every edge axis-parallel']
-    ctx.cov['trusted_base'] = vf.TRUSTED_COMMON + ['Coq.Floats axioms (PrimFloat <-> SpecFloat) for the executed binary64 leaves only']
-    if broken and not [v for v in ctx.violations if not v['nofail']]:
+                        'general position as decided by base/GenPos.v; rectilinear = every edge axis-parallel',
+                        'Print Assumptions of the structural theorems lists the primitive float type and its operations abs/leb/ltb (Coq primitives, used only in DoSplitOp\'s area tests, which the proof treats as opaque)']
+    ctx.cov['trusted_base'] = vf.TRUSTED_COMMON + ['Coq.Floats primitives (PrimFloat) for the executed binary64 leaves and the area tests of the model']
+    if broken and not has_failing_input(ctx):
         if not pr['ok']:
             ctx.violation('proof-break:Properties_C03', 'Properties_C03 no longer checks: %s' % '; '.join(pr['failed'])[:800],
                           replay=dict(failed=pr['failed'], log=pr['log'][-2000:]), nofail=True)
